@@ -647,6 +647,42 @@ def rand_world(rng):
     return {"kind": "world", "exts": exts, "objs": objs, "prog": prog}
 
 
+VIAS = ["json", "serial", "package"]
+KINDS = ["type", "op", "value"]
+
+
+def rand_seq(rng, i=None):
+    """ONE Extension object over time (seeded round 4): definitions are added, the object is serialised
+    (observed), MORE definitions are added to the same object -- or to the object loaded back from the document --,
+    it is serialised again, ...  `via`: which public writer/loader pair is used at a point (Extension.to_json /
+    from_json, the serial model of _to_serial, a Package holding the extension).  Focused cases (i given): a
+    prefix, a point, ONE more definition of a chosen kind, a point -- every mutator after every serialiser."""
+    h = rand_hist(rng, big=(i is None and rng.random() < 0.1))
+    cmds = h["cmds"]
+    segs = []
+    if i is not None:
+        kind, via = KINDS[i % 3], VIAS[(i // 3) % 3]
+        pool = [c for c in rand_hist(rng, big=True)["cmds"] if c["c"] == kind]
+        one = dict(pool[0]) if pool else {
+            "type": {"c": "type", "name": "T", "descr": "", "params": [], "bound": ["E", "C"]},
+            "op": {"c": "op", "name": "op", "descr": "", "misc": {}, "binary": True, "sig": None, "func": False},
+            "value": {"c": "value", "name": "v", "val": ["true"]}}[kind]
+        if rng.random() < 0.6:          # a name the extension does not hold yet
+            used = {c["name"] for c in cmds if c["c"] == kind}
+            one["name"] = next((x for x in DEF_NAMES if x not in used), one["name"])
+        segs.append({"cmds": cmds[: rng.randint(0, 4)], "via": via, "reload": rng.random() < 0.25})
+        segs.append({"cmds": [one], "via": rng.choice(VIAS), "reload": False})
+        if rng.random() < 0.3:
+            segs.append({"cmds": [], "via": rng.choice(VIAS), "reload": False})
+    else:
+        k = rng.randint(2, 4)
+        cuts = sorted(rng.randint(0, len(cmds)) for _ in range(k - 1))
+        parts = [cmds[a:b] for a, b in zip([0] + cuts, cuts + [len(cmds)])]
+        for part in parts:
+            segs.append({"cmds": part, "via": rng.choice(VIAS), "reload": rng.random() < 0.3})
+    return {"kind": "seq", "name": h["name"], "version": h["version"], "reqs": h["reqs"], "segs": segs}
+
+
 def std_files(root):
     out = {}
     for p in sorted(glob.glob(os.path.join(root, "**", "*.json"), recursive=True)):
@@ -745,9 +781,22 @@ def helper_rows(I, notes):
             return ["s"]
         if ann in ("tys.Type", "Type"):
             from hugr.std.int import int_t
-            return [tys.Bool, int_t(4), tys.Tuple(tys.Bool, tys.Unit)] + ([tys.Qubit] if "static" not in pname else [])
-        if ann in ("int | tys.TypeArg", "int | TypeArg"):
-            return [0, 4, tys.VariableArg(0, tys.BoundedNatParam())]
+            # seeded round 4: element types that are type VARIABLES (copyable / any) as well
+            return [tys.Bool, int_t(4), tys.Tuple(tys.Bool, tys.Unit)] + ([tys.Qubit] if "static" not in pname else []) + [
+                tys.Variable(0, tys.TypeBound.Copyable), tys.Variable(1, tys.TypeBound.Any)]
+        if ann in ("int | tys.TypeArg", "int | TypeArg", "tys.TypeArg", "TypeArg", "tys.TypeArg | int", "TypeArg | int"):
+            # seeded round 4 (C10-h): an argument given as a VARIABLE declared with every kind of parameter (only
+            # those the definition's parameter admits may be accepted), and non-variable arguments of every kind;
+            # what the constructor refuses is skipped, what it accepts must match the definition's parameters
+            C, A = tys.TypeBound.Copyable, tys.TypeBound.Any
+            return [0, 4, tys.VariableArg(0, tys.BoundedNatParam()),
+                    tys.VariableArg(0, tys.TypeTypeParam(C)), tys.VariableArg(1, tys.BoundedNatParam(8)),
+                    tys.VariableArg(0, tys.StringParam()), tys.VariableArg(2, tys.ListParam(tys.BoundedNatParam())),
+                    tys.VariableArg(1, tys.TypeTypeParam(A)), tys.VariableArg(0, tys.ExtensionsParam()),
+                    tys.VariableArg(0, tys.TupleParam([tys.BoundedNatParam()])), tys.VariableArg(3, tys.TupleParam([])),
+                    tys.VariableArg(0, tys.ListParam(tys.TypeTypeParam(A))),
+                    tys.BoundedNatArg(7), tys.StringArg("3"), tys.TypeTypeArg(tys.Bool),
+                    tys.SequenceArg([tys.BoundedNatArg(1)]), tys.SequenceArg([]), tys.ExtensionsArg(["prelude"])]
         if ann in ("list[val.Value]", "list[Value]"):
             return [[], [val.TRUE]]
         return None
@@ -762,11 +811,17 @@ def helper_rows(I, notes):
                 notes.append("helper %s: parameter %s : %s has no sample values; not covered" % (label, p.name, p.annotation))
                 return
             cols.append(s)
+        import itertools
         n = max([len(c) for c in cols] + [1])
+        total = 1
+        for c in cols:
+            total *= len(c)
+        # every combination of the sample values when there are few (seeded round 4: every element type with every
+        # size argument), otherwise the columns side by side
+        combos = list(itertools.product(*cols)) if total <= 150 else [[c[i % len(c)] for c in cols] for i in range(n)]
         done = 0
-        for i in range(n):
-            args = [c[i % len(c)] for c in cols]
-            lab = "%s(%s)" % (label, ", ".join(str(a) for a in args))
+        for args in combos:
+            lab = "%s(%s)" % (label, ", ".join(repr(a) if isinstance(a, tys.VariableArg) else str(a) for a in args))
             try:
                 obj = cls(*args)
             except Exception:  # noqa: BLE001  (a sample outside the constructor's domain: any class of refusal)
@@ -850,8 +905,14 @@ class C10(fw.Prop):
             "whose names mostly coincide (different versions, or wholly equal headers) and 1-4 definition objects "
             "added to them in random or every-object-to-every-extension patterns, observed per Extension object: "
             "document, its round trip, and for each held operation the index of the Extension object that "
-            "get_extension() returns (by identity).  non-trivial = at least one operation with a signature, or an "
-            "error result; for worlds: an operation object reaches two different Extension objects of one name")
+            "get_extension() returns (by identity); 30 more worlds in which every Extension object is serialised between "
+            "steps.  Sessions on ONE Extension object (90): a history cut into 1-5 segments with an observation point after "
+            "each (document, load-and-write, owners, header, and the object itself read through its public attributes) "
+            "through Extension.to_json/from_json, _to_serial + the serial model, or a Package holding the extension, "
+            "continuing on the same or on the loaded object; half of them focused: point, ONE definition of a chosen "
+            "kind (type / op / value), point.  non-trivial = at least one operation with a signature, or an "
+            "error result; for worlds: an operation object reaches two different Extension objects of one name; for "
+            "sessions: something is added after a document was written")
     trusted = [
         "type expressions, constant values and misc values are payloads compared structurally in hugr-py's own "
         "serial form (the type/value codec is property C05); the theorems carry the codec's fixed-point law "
@@ -957,6 +1018,19 @@ class C10(fw.Prop):
                                {"c": "value", "name": "v", "val": ["true"]}]})
         # two Extension objects that compare == (equal headers, equal contents) are still two objects
         cases.append({"kind": "world", "exts": [ver("A", 1), ver("A", 1)], "prog": [[0, 0], [1, 0], [1, 0]], "objs": [xop]})
+        # seeded round 4 (C10-g): a document kept from an earlier to_json() and not dropped by every mutator.
+        # Serialise, add ONE definition of each kind in turn, serialise again: the later document shows it.
+        tdef = {"c": "type", "name": "T", "descr": "a type", "params": [["type", "A"]], "bound": ["F", [0]]}
+        odef = {"c": "op", "name": "op", "descr": "an op", "misc": {"k": 1}, "binary": False, "func": True,
+                "sig": {"params": [], "in": [["bool"]], "out": [["bool"]], "reqs": []}}
+        vdef = {"c": "value", "name": "ONE", "val": ["true"]}
+        shdr = {"kind": "seq", "name": "demo.ext", "version": [0, 1, 0, None, None], "reqs": ["prelude"]}
+        pt = lambda cmds, via="json", reload=False: {"cmds": cmds, "via": via, "reload": reload}
+        cases.append({**shdr, "segs": [pt([tdef, odef]), pt([vdef])]})
+        cases.append({**shdr, "segs": [pt([]), pt([vdef]), pt([odef]), pt([tdef]), pt([])]})
+        cases.append({**shdr, "segs": [pt([vdef], "serial"), pt([tdef], "package"), pt([odef], "serial"), pt([{**vdef, "name": "TWO"}], "package")]})
+        # ... and on the object that from_json returned
+        cases.append({**shdr, "segs": [pt([odef], "json", True), pt([vdef], "json", True), pt([tdef], "json", True), pt([{**odef, "name": "op2"}])]})
         base = {"version": "0.1.0", "name": "e", "runtime_reqs": [], "types": {}, "values": {}, "operations": {}}
         cases.append({"kind": "doc", "must_load": False, "std": None, "doc": base})
         cases.append({"kind": "doc", "must_load": False, "std": None, "doc": {**base, "operations": {
@@ -978,6 +1052,15 @@ class C10(fw.Prop):
             cases.append(rand_doc(rng, 0.0 if rng.random() < 0.4 else rng.choice([0.1, 0.3, 0.6])))
         for _ in range(80 * k):        # appended last: the streams above are unchanged
             cases.append(rand_world(rng))
+        for i in range(90 * k):        # seeded round 4, appended after everything else
+            cases.append(rand_seq(rng, i if i % 2 == 0 else None))
+        for _ in range(30 * k):        # worlds whose Extension objects are serialised between the steps
+            w = rand_world(rng)
+            n = len(w["prog"])
+            w["probes"] = {str(t): rng.choice(VIAS) for t in sorted(rng.sample(range(n), rng.randint(1, min(3, n))))}
+            if rng.random() < 0.5:
+                w["probes"][str(n - 2)] = rng.choice(VIAS)       # right before the last step
+            cases.append(w)
         return cases
 
     # ---------------- running the implementation
@@ -1039,6 +1122,7 @@ class C10(fw.Prop):
             exts = [self._new_ext(h) for h in case["exts"]]
             objs = [self._new_obj(c) for c in case["objs"]]
             seen, bad = set(), None
+            probes = case.get("probes") or {}
             for t, (i, j) in enumerate(prog):
                 c = case["objs"][j]
                 try:
@@ -1049,8 +1133,19 @@ class C10(fw.Prop):
                     bad = t
                     break
                 seen.add((i, c["c"], c["name"]))
+                # seeded round 4: every Extension object is serialised (and the document dropped) between two steps;
+                # the model has no step for it: writing a document changes neither the extension nor the definitions
+                via = probes.get(str(t))
+                if via is not None:
+                    for x in exts:
+                        try:
+                            self._write(x, via)
+                        except Exception:  # noqa: BLE001  (seen again, and judged, at the final observation)
+                            pass
             if bad is None:
                 return exts, prog
+            if probes:       # the steps after the refused one move up by one
+                case = {**case, "probes": {str(int(k) - (int(k) > bad)): v for k, v in probes.items() if int(k) != bad}}
             del prog[bad]
 
     @staticmethod
@@ -1072,8 +1167,127 @@ class C10(fw.Prop):
         except Exception as ex:  # noqa: BLE001  (classes only)
             return [type(ex).__name__]
 
+    @staticmethod
+    def _view(e):
+        """The Extension OBJECT as it is, read through its public attributes and written in the shape of a
+        document by the harness (payloads -- type parameters, type expressions, constants -- in hugr-py's own
+        serial form, as everywhere): what "serializing the extension" has to correspond to, independent of any
+        document the object may have kept."""
+        from hugr import ext, tys
+
+        def dump(x):
+            return x._to_serial_root().model_dump(mode="json")
+        types, values, ops = {}, {}, {}
+        for k, t in e.types.items():
+            b = t.bound
+            if isinstance(b, ext.ExplicitBound):
+                sb = {"b": "Explicit", "bound": "C" if b.bound == tys.TypeBound.Copyable else "A"}
+            elif isinstance(b, ext.FromParamsBound):
+                sb = {"b": "FromParams", "indices": list(b.indices)}
+            else:
+                raise FailClosed("bound object %r" % (b,))
+            types[k] = {"extension": t.get_extension().name, "name": t.name, "description": t.description,
+                        "params": [dump(q) for q in t.params], "bound": sb}
+        for k, v in e.values.items():
+            values[k] = {"extension": v.get_extension().name, "name": v.name, "typed_value": dump(v.val)}
+        for k, o in e.operations.items():
+            pf = o.signature.poly_func
+            sig = None
+            if pf is not None:
+                sig = {"params": [dump(q) for q in pf.params],
+                       "body": {"input": [dump(t) for t in pf.body.input], "output": [dump(t) for t in pf.body.output],
+                                "runtime_reqs": list(pf.body.runtime_reqs)}}
+            if o.lower_funcs:
+                raise FailClosed("lowering functions are outside the property's quantifier")
+            ops[k] = {"extension": o.get_extension().name, "name": o.name, "description": o.description,
+                      "misc": json.loads(json.dumps(o.misc)), "signature": sig, "binary": bool(o.signature.binary)}
+        v = e.version
+        vs = "%d.%d.%d" % (v.major, v.minor, v.patch) + ("-" + v.prerelease if v.prerelease else "") + ("+" + v.build if v.build else "")
+        return {"version": vs, "name": e.name, "runtime_reqs": sorted(e.runtime_reqs), "types": types, "values": values,
+                "operations": ops}
+
+    @staticmethod
+    def _write(e, via):
+        """the extension's document through one of the public writers -> (dict, loader of that very text)"""
+        import warnings
+        from hugr.ext import Extension
+        if via == "serial":
+            import hugr._serialization.extension as ext_s
+            text = e._to_serial().model_dump_json()
+            return json.loads(text), lambda: ext_s.Extension.model_validate_json(text).deserialize()
+        if via == "package":
+            from hugr.package import Package
+            with warnings.catch_warnings():
+                warnings.simplefilter("ignore")
+                text = Package([], [e]).to_json()
+            d = json.loads(text)
+            if d.get("modules") != [] or not isinstance(d.get("extensions"), list) or len(d["extensions"]) != 1:
+                raise FailClosed("package document %r" % (sorted(d),))
+
+            def load():
+                with warnings.catch_warnings():
+                    warnings.simplefilter("ignore")
+                    pk = Package.from_json(text)
+                (x,) = pk.extensions
+                return x
+            return d["extensions"][0], load
+        text = e.to_json()
+        return json.loads(text), lambda: Extension.from_json(text)
+
+    def _run_seq(self, case):
+        """-> (observations per point, kept command indices per point).  A re-add the implementation refuses
+        is left out and the whole session rebuilt (as `_build`)."""
+        segs = case["segs"]
+        kept = [list(range(len(g["cmds"]))) for g in segs]
+        while True:
+            e, seen, bad, points = self._new_ext(case), set(), None, []
+            for gi, g in enumerate(segs):
+                for i in kept[gi]:
+                    c = g["cmds"][i]
+                    try:
+                        self._add(e, c, self._new_obj(c))
+                    except Exception:  # noqa: BLE001
+                        if (c["c"], c["name"]) not in seen:
+                            raise
+                        bad = (gi, i)
+                        break
+                    seen.add((c["c"], c["name"]))
+                if bad is not None:
+                    break
+                box = {}
+
+                def first():
+                    d, _ = self._write(e, g["via"])
+                    return d
+                view1 = self._guard(lambda: self._view(e))      # the object BEFORE anything is written at this point
+                before = self._guard(first)
+                own1 = self._owners(e)
+                after, own2, api2, view2 = before, [], None, ["skipped"]
+                if before[0] == "ok":
+                    def again():
+                        _, load = self._write(e, g["via"])      # written a second time, as for CHist
+                        box["e2"] = load()
+                        return self._write(box["e2"], g["via"])[0]
+                    after = self._guard(again)
+                    if "e2" in box:
+                        e2 = box["e2"]
+                        own2 = self._owners(e2)
+                        v = e2.version
+                        api2 = [e2.name, [v.major, v.minor, v.patch, v.prerelease, v.build], sorted(e2.runtime_reqs)]
+                        view2 = self._guard(lambda: self._view(e2))
+                points.append({"before": before, "after": after, "own1": own1, "own2": own2, "api2": api2,
+                               "view1": view1, "view2": view2})
+                if g["reload"] and "e2" in box:
+                    e = box["e2"]
+            if bad is None:
+                return points, kept
+            kept[bad[0]].remove(bad[1])
+
     def observe(self, case, ctx):
         from hugr.ext import Extension
+        if case["kind"] == "seq":
+            points, kept = self._run_seq(case)
+            return {"points": points, "kept": kept}
         if case["kind"] == "hist":
             e, kept = self._build(case)
             before = self._guard(lambda: json.loads(e.to_json()))
@@ -1175,6 +1389,16 @@ class C10(fw.Prop):
             return gapp("CHist", gN(I(case["name"])), g_version(case["version"], I), g_names(case["reqs"], I), glist(cmds),
                         g_ores(obs["before"], I), g_ores(obs["after"], I), g_owners(obs["own1"], I), g_owners(obs["own2"], I),
                         gopt(api2))
+        if case["kind"] == "seq":
+            I(case["name"])
+            segs = []
+            for g, o, kept in zip(case["segs"], obs["points"], obs["kept"]):
+                a = o["api2"]
+                api2 = None if a is None else gpair(gpair(gN(I(a[0])), g_version(a[1], I)), g_names_sorted(a[2], I))
+                segs.append(gapp("mkSeg", glist(self._g_cmd(g["cmds"][i], I) for i in kept), gbool(g["reload"]),
+                                 g_ores(o["before"], I), g_ores(o["after"], I), g_owners(o["own1"], I), g_owners(o["own2"], I),
+                                 gopt(api2), g_ores(o["view1"], I), g_ores(o["view2"], I)))
+            return gapp("CSeq", gN(I(case["name"])), g_version(case["version"], I), g_names(case["reqs"], I), glist(segs))
         if case["kind"] == "shared":
             for h in case["exts"]:
                 I(h["name"])
@@ -1194,6 +1418,8 @@ class C10(fw.Prop):
 
     # ---------------- classification, shrinking
     def nontrivial(self, case, obs):
+        if case["kind"] == "seq":
+            return any(g["cmds"] for g in case["segs"][1:])      # something is added AFTER a document was written
         if case["kind"] == "shared":
             return len({j for _, j in case["prog"]}) < len({(i, j) for i, j in case["prog"]})   # an object reaches two extensions
         if case["kind"] == "world":
@@ -1218,6 +1444,32 @@ class C10(fw.Prop):
         return {"input": case, "observed": obs}
 
     def signature(self, case, obs, ctx):
+        if case["kind"] == "seq":
+            added = {"types": set(), "operations": set(), "values": set()}
+            fld = {"type": "types", "op": "operations", "value": "values"}
+            for g, o, kept in zip(case["segs"], obs["points"], obs["kept"]):
+                for i in kept:
+                    added[fld[g["cmds"][i]["c"]]].add(g["cmds"][i]["name"])
+                b, a = o["before"], o["after"]
+                if b[0] != "ok":
+                    return "ext:seq:write:" + b[0]
+                for f in ("types", "operations", "values"):
+                    if set(b[1].get(f, {})) != added[f]:
+                        return "ext:seq:stale-document:" + f
+                if o["view1"][0] != "ok":
+                    return "ext:seq:object:" + o["view1"][0]
+                for f in ("types", "operations", "values"):
+                    if {k: x.get("description") for k, x in b[1][f].items()} != {k: x.get("description") for k, x in o["view1"][1][f].items()}:
+                        return "ext:seq:document-vs-object:" + f
+                if a[0] != "ok":
+                    return "ext:seq:load:" + a[0]
+                if any(not m for _, m, _ in o["own1"] + o["own2"]):
+                    return "ext:seq:owner"
+                if any(rs is not None and case["name"] not in rs for _, _, rs in o["own1"] + o["own2"]):
+                    return "ext:seq:requirement"
+                if a[1] != b[1]:
+                    return "ext:seq:roundtrip"
+            return "ext:seq"
         if case["kind"] == "shared":
             for h, o in zip(case["exts"], obs["exts"]):
                 if o["before"][0] != "ok":
@@ -1267,7 +1519,39 @@ class C10(fw.Prop):
         return pre + "kept"
 
     def shrink(self, case):
+        if case["kind"] == "seq":
+            sg = case["segs"]
+            for x in range(len(sg) - 1):          # drop an observation point (its commands join the next one)
+                yield {**case, "segs": sg[:x] + [{**sg[x + 1], "cmds": sg[x]["cmds"] + sg[x + 1]["cmds"]}] + sg[x + 2:]}
+            if len(sg) > 1:
+                yield {**case, "segs": sg[:-1]}
+            for x, g in enumerate(sg):
+                for i in range(len(g["cmds"])):
+                    yield {**case, "segs": sg[:x] + [{**g, "cmds": g["cmds"][:i] + g["cmds"][i + 1:]}] + sg[x + 1:]}
+            for x, g in enumerate(sg):
+                if g["reload"]:
+                    yield {**case, "segs": sg[:x] + [{**g, "reload": False}] + sg[x + 1:]}
+                if g["via"] != "json":
+                    yield {**case, "segs": sg[:x] + [{**g, "via": "json"}] + sg[x + 1:]}
+            if case["reqs"]:
+                yield {**case, "reqs": []}
+            if case["version"][3] or case["version"][4]:
+                yield {**case, "version": case["version"][:3] + [None, None]}
+            for x, g in enumerate(sg):
+                for i, c in enumerate(g["cmds"]):
+                    if c["c"] == "op" and (c["misc"] or c["descr"]):
+                        yield {**case, "segs": sg[:x] + [{**g, "cmds": g["cmds"][:i] + [{**c, "misc": {}, "descr": ""}] + g["cmds"][i + 1:]}] + sg[x + 1:]}
+            return
         if case["kind"] in ("shared", "world"):
+            if case.get("probes"):
+                yield {k: v for k, v in case.items() if k != "probes"}
+                for t in case["probes"]:
+                    yield {**case, "probes": {k: v for k, v in case["probes"].items() if k != t}}
+                if len(case["prog"]) > 1:      # drop a step: the probes after it move up
+                    for x in range(len(case["prog"])):
+                        yield {**case, "prog": case["prog"][:x] + case["prog"][x + 1:],
+                               "probes": {str(int(k) - (int(k) >= x)): v for k, v in case["probes"].items() if int(k) != x or x > 0}}
+                return
             p = case["prog"]
             if case["kind"] == "world" and len(case["exts"]) > 1:
                 for x in range(len(case["exts"])):
@@ -1321,7 +1605,8 @@ class C10(fw.Prop):
         out = list(self.shrink(case))
         for _ in range(300):
             out.append(rand_hist(rng) if case["kind"] == "hist" else rand_shared(rng) if case["kind"] == "shared"
-                       else rand_world(rng) if case["kind"] == "world" else rand_doc(rng, 0.3))
+                       else rand_world(rng) if case["kind"] == "world" else rand_seq(rng, rng.randrange(9) if rng.random() < 0.5 else None)
+                       if case["kind"] == "seq" else rand_doc(rng, 0.3))
         return out
 
     def distribution(self, cases, observations):
@@ -1335,11 +1620,25 @@ class C10(fw.Prop):
         d["doc_in_domain"] = 0                 # serialisation of an extension (C10Run.doc_wf): judged strictly
         d["doc_outside_domain"] = {"loaded": 0, "refused": 0}     # any refusal accepted; a loaded result must be a fixed point
         d["readds_refused_by_the_implementation"] = 0
+        d["seq"] = 0
+        d["seq_points"] = 0
+        d["seq_continued_on_loaded_object"] = 0
+        d["seq_mutator_after_writer"] = {}     # "<kind added> after <via of the previous point>" -> count
         for c, o in zip(cases, observations):
+            if c["kind"] == "seq":
+                d["seq"] += 1
+                d["seq_points"] += len(c["segs"])
+                d["seq_continued_on_loaded_object"] += any(g["reload"] for g in c["segs"][:-1])
+                for x in range(1, len(c["segs"])):
+                    for cm in c["segs"][x]["cmds"]:
+                        k = "%s after %s%s" % (cm["c"], c["segs"][x - 1]["via"], "+load" if c["segs"][x - 1]["reload"] else "")
+                        d["seq_mutator_after_writer"][k] = d["seq_mutator_after_writer"].get(k, 0) + 1
+                continue
             if c["kind"] == "world":
                 d["world"] += 1
                 d["world_op_object_in_two_same_named_extension_objects"] += self._same_name_sharing(c)
                 d["world_equal_headers"] += any(a == b for x, a in enumerate(c["exts"]) for b in c["exts"][x + 1:])
+                d["world_serialised_between_steps"] = d.get("world_serialised_between_steps", 0) + bool(c.get("probes"))
             elif c["kind"] == "shared":
                 d["shared"] += 1
                 d["shared_object_in_two_extensions"] += self.nontrivial(c, o)
